@@ -103,6 +103,8 @@ func TestVerifC29(t *testing.T) {
 		deg("mixed-empty", "", "foo bar", "", "package baz foo\nfoo", ""),
 		deg("ties", "foo bar baz\n", "foo bar baz\n", "foo bar baz\n", "foo bar baz\n", "foo bar baz\n", "foo bar baz\n"),
 		deg("long", strings.Repeat("foo bar\n", 20000), "foo", "bar baz", "package p\nfunc foo() {}\n", ""),
+		// one line matching five query terms with different frequencies (a per-line score is a sum over terms)
+		deg("manyterms", "foo foo foo bar baz baz func package package package package\nfoo bar\n", "package func baz baz baz baz baz foo\n", "bar bar foo func func func\n", "nothing\n"),
 	} {
 		rp := rp
 		mk(strings.TrimPrefix(rp.Name, "deg/"), func(d string) error { _, err := gen.WriteSimple(d, rp); return err })
@@ -240,7 +242,11 @@ func TestVerifC29(t *testing.T) {
 							}
 						}
 						// repetition (witness search over runtime map order)
-						for rep := 0; rep < 6; rep++ {
+						reps := 6
+						if bm25 {
+							reps = 24 // BM25 sums per-term contributions: more chances for an order-dependent sum to show
+						}
+						for rep := 0; rep < reps; rep++ {
 							again := run(false)
 							if again == nil {
 								break
